@@ -690,9 +690,23 @@ class _FoldGetters(ast.NodeTransformer):
         return n
 
 
+class _PlainAnnotated(ast.NodeTransformer):
+    """`allowed: Set[Node] = set(nodes)`  ->  `allowed = set(nodes)` for plain local names: the annotation of a local carries nothing
+    the analysis uses, and every def-use helper reads plain assignments"""
+
+    def visit_AnnAssign(self, n):
+        if isinstance(n.target, ast.Name) and n.value is not None and n.simple:
+            return ast.copy_location(ast.Assign(targets=[n.target], value=n.value, type_comment=None), n)
+        return n
+
+    def visit_ClassDef(self, n):
+        return n  # annotated class-level fields (dataclasses, NamedTuples) keep their form
+
+
 def canonicalise(tree: ast.Module) -> ast.Module:
     tables = _module_tables(tree)
     for fn in _functions(tree):
+        _PlainAnnotated().visit(fn)
         for _ in range(3):
             if not _unroll_literal_loops(fn):  # (nested literal loops: the inner one after the outer one was unrolled)
                 break
